@@ -778,7 +778,7 @@ func unrelatedAlt(t *rapid.T, p Params) Params {
 }
 
 func TestLimitsExactAndIndependent(t *testing.T) {
-	ev.Rule(chkLimits, "rapid: an otherwise valid request (drawn type, key type, hash algorithm, patches, optional padding of the request with insignificant whitespace or of the delta with a long alsoKnownAs URI / json-patch value) measured independently (request bytes, canonical delta bytes, longest hash string, nonce bytes); one limit L in {maxOperationSize, maxDeltaSize, maxOperationHashLength, nonceSize} is set to exactly the measured value (must accept), to one less (must reject) and - nonce - one more (must reject), all other limits far away and pairwise distinct, plus a twin configuration differing only in an unrelated parameter (verdict must not move); non-trivial = every case (all are within 1 of a limit)")
+	ev.Rule(chkLimits, "rapid: an otherwise valid request (drawn type, key type, hash algorithm, patches, optional padding of the request with insignificant whitespace or of the delta with a long alsoKnownAs URI / json-patch value; for the delta limit one request in three carries 40-160 numbers written 1e20, so that its canonical delta is longer than the request as submitted) measured independently (request bytes, canonical delta bytes, longest hash string, nonce bytes); one limit L in {maxOperationSize, maxDeltaSize, maxOperationHashLength, nonceSize} is set to exactly the measured value (must accept), to one less (must reject) and - nonce - one more (must reject), all other limits far away and pairwise distinct, plus a twin configuration differing only in an unrelated parameter (verdict must not move); non-trivial = every case (all are within 1 of a limit)")
 	ev.Rapid(t, chkLimits, 800, 8000, func(t *rapid.T) {
 		s := drawSpec(t)
 		if s.nonce != 0 {
@@ -808,7 +808,21 @@ func TestLimitsExactAndIndependent(t *testing.T) {
 					map[string]interface{}{"op": "add", "path": "/odd", "value": []interface{}{"line\u2028sep", 1e-7, "R&D <team>"}}}})
 			}
 		}
+		compact := limit == "delta-size" && rapid.IntRange(0, 2).Draw(t, "compactNumbers") == 0
+		if compact {
+			// numbers that are written much shorter in the request than in the canonical form (1e20 against 21 digits): the
+			// canonical delta can be longer than the whole request as it is submitted
+			n := rapid.IntRange(40, 160).Draw(t, "compactCount")
+			vals := make([]interface{}, n)
+			for i := range vals {
+				vals[i] = 1e20
+			}
+			s.patchs = append(s.patchs, map[string]interface{}{"action": "ietf-json-patch", "patches": []interface{}{map[string]interface{}{"op": "add", "path": "/big", "value": vals}}})
+		}
 		req := buildReq(s, nil)
+		if compact {
+			req = bytes.ReplaceAll(req, []byte("100000000000000000000"), []byte("1e20"))
+		}
 		if rapid.Bool().Draw(t, "padRequest") {
 			// insignificant whitespace before the closing brace grows the request, not the delta
 			req = append(append(append([]byte{}, req[:len(req)-1]...), bytes.Repeat([]byte(" "), rapid.IntRange(1, 500).Draw(t, "wsPad"))...), '}')
